@@ -348,7 +348,7 @@ func (t *Tree) GetTransactions(ctx context.Context) ([]*Transaction, error) {
 			})
 		case kindOutput:
 			// Input artifacts always come before output artifacts.
-			if !curTx.Equal(&decHash) {
+			if len(txs) == 0 || !curTx.Equal(&decHash) {
 				return nil, fmt.Errorf("transaction: malformed transaction tree")
 			}
 
